@@ -5,6 +5,7 @@ import (
 	"context"
 	"errors"
 	"path"
+	"strings"
 	"time"
 
 	"github.com/hack-pad/hackpadfs"
@@ -263,15 +264,58 @@ func (fs *FS) Remove(name string) error {
 
 // Rename implements hackpadfs.RenameFS
 func (fs *FS) Rename(oldname, newname string) error {
-	oldFile, err := fs.getFile(oldname)
-	if err != nil {
+	linkErr := func(err error) error {
 		return &hackpadfs.LinkError{Op: "rename", Old: oldname, New: newname, Err: err}
+	}
+	oldFile, oldErr := fs.getFile(oldname)
+	if oldErr != nil {
+		if !errors.Is(oldErr, hackpadfs.ErrNotExist) {
+			return linkErr(oldErr)
+		}
+		// like the os package, resolve both parent directories before reporting a missing oldname
+		if _, err := fs.getFile(path.Dir(oldname)); err != nil {
+			return linkErr(oldErr)
+		}
+	}
+	newFile, newErr := fs.getFile(newname)
+	switch {
+	case newErr == nil:
+	case !errors.Is(newErr, hackpadfs.ErrNotExist):
+		return linkErr(newErr)
+	default:
+		// require parent directory
+		parent, err := fs.getFile(path.Dir(newname))
+		if err != nil {
+			return linkErr(err)
+		}
+		if !parent.Mode().IsDir() {
+			return linkErr(hackpadfs.ErrNotDir)
+		}
+	}
+	if oldErr != nil {
+		return linkErr(oldErr)
 	}
 	oldInfo, err := oldFile.Stat()
 	if err != nil {
 		return err
 	}
-	if !oldInfo.IsDir() {
+	if newErr == nil && newFile.Mode().IsDir() {
+		return linkErr(hackpadfs.ErrExist)
+	}
+	if oldInfo.IsDir() {
+		if strings.HasPrefix(newname, oldname+"/") {
+			return linkErr(hackpadfs.ErrInvalid)
+		}
+		if newErr == nil {
+			return linkErr(hackpadfs.ErrNotDir)
+		}
+	}
+	return fs.rename(oldFile, oldname, newname)
+}
+
+// rename moves oldFile from 'oldname' to 'newname', directories are moved recursively. The names must already be validated.
+func (fs *FS) rename(oldFile *file, oldname, newname string) error {
+	if !oldFile.Mode().IsDir() {
 		if oldname == newname {
 			return nil
 		}
@@ -294,11 +338,6 @@ func (fs *FS) Rename(oldname, newname string) error {
 		return err
 	}
 
-	_, err = fs.getFile(newname)
-	if !errors.Is(err, hackpadfs.ErrNotExist) {
-		return &hackpadfs.LinkError{Op: "rename", Old: oldname, New: newname, Err: hackpadfs.ErrExist}
-	}
-
 	files, err := oldFile.ReadDirNames()
 	if err != nil {
 		return err
@@ -308,7 +347,11 @@ func (fs *FS) Rename(oldname, newname string) error {
 		return err
 	}
 	for _, name := range files {
-		err := fs.Rename(path.Join(oldname, name), path.Join(newname, name))
+		oldChild := path.Join(oldname, name)
+		child, err := fs.getFile(oldChild)
+		if err == nil {
+			err = fs.rename(child, oldChild, path.Join(newname, name))
+		}
 		if err != nil {
 			// TODO don't leave destination in corrupted state (missing file records for dir names)
 			return err
